@@ -1,9 +1,8 @@
-(* C19 — property theorems only.  Proved: the energy clause.  The throughput clause (latency / k) and the n_instances clause are
-   checked on the real mapper only (listed as partial): the first needs the same argument through the max over components,
-   the second is outside the single-Einsum model. *)
+(* C19 — property theorems only.  Proved: the energy clause and the throughput clause.  The n_instances clause is checked on the
+   real mapper only (it is outside the single-Einsum model), hence the _partial name of the summary theorem. *)
 From Coq Require Import ZArith QArith List Bool Lia.
 Import ListNotations.
-From AF Require Import Lib.MiniForge C06.Model Lib.MiniSpace C19.Proofs.
+From AF Require Import Lib.MiniForge C06.Model Lib.MiniSpace C19.Proofs C19.Thr.
 Open Scope Q_scope.
 
 (* multiplying every per-action energy and every leak power by k multiplies the energy of EVERY mapping by k, under the model
@@ -23,3 +22,14 @@ Theorem C19_energy_scale_partial : forall k ms v, 0 < k -> opt ms MEnergy = Some
   (exists v', opt (scale_mspec k ms) MEnergy = Some v' /\ v' == k * v) /\ opt (scale_mspec k ms) MLatency = opt ms MLatency.
 Proof. intros k ms v Hk O. split; [apply opt_energy_scale; assumption|apply opt_latency_unscaled]. Qed.
 Print Assumptions C19_energy_scale_partial.
+
+(* multiplying every throughput (memories and compute) by k > 0 divides the latency of EVERY mapping by k, under the model and
+   under execution alike; the mapspace is unchanged; hence the optimal latency is divided by k *)
+Theorem C19_latency_of_every_mapping : forall counts k sp m, 0 < k -> latency counts (scale_thr k sp) m == / k * latency counts sp m.
+Proof. intros. apply latency_thr. assumption. Qed.
+Print Assumptions C19_latency_of_every_mapping.
+
+Theorem C19_throughput_scale : forall k ms v, 0 < k -> opt ms MLatency = Some v ->
+  space (thr_mspec k ms) = space ms /\ exists v', opt (thr_mspec k ms) MLatency = Some v' /\ v' == / k * v.
+Proof. intros k ms v Hk O. split; [apply space_thr|apply opt_latency_thr; assumption]. Qed.
+Print Assumptions C19_throughput_scale.
